@@ -682,6 +682,9 @@ impl<V: PoseidonVariant> PoseidonPermExecutor<V> {
             resolved_inputs[self.config.rate_ext()] += F::from_u8(self.absorb_len as u8);
         }
 
+        #[cfg(feature = "verif-hooks")]
+        crate::ops::verif_hooks::apply_perm_input_fault(ctx.operation_id().0, &mut resolved_inputs);
+
         let output = exec(&resolved_inputs);
         let row = self.build_base_trace_row(limbs, outputs, &resolved_inputs);
 
@@ -959,6 +962,9 @@ impl<V: PoseidonVariant, F: Field + Send + Sync + 'static> NonPrimitiveExecutor<
         self.apply_witness_values(&mut state, inputs, ctx)?;
         // 4. Conditionally swap rate halves for the arity-2 Merkle direction bit.
         self.apply_merkle_swap(&mut state, mmcs_bit);
+
+        #[cfg(feature = "verif-hooks")]
+        crate::ops::verif_hooks::apply_perm_input_fault(ctx.operation_id().0, &mut state);
 
         // Run the permutation and record the result.
         let output = exec(&state);
